@@ -224,7 +224,41 @@ def check_vec(ctx, config, rule):
         okv = len(ri) == 1 and ri[0].args[1:3] == [P2, P3] and ri[0].args[3][0] == 'agg' and ri[0].args[3][2] == 'Infallible' and ri[0].args[4] == P4 and len(co) == 1 \
             and any(f[0] == 'is' and f[2] == 'CapacityOverflow' for f in co[0].state.facts)
         k.check('RawVec::reserve_internal_or_panic', 'reserve_internal(.., Infallible, strategy); the capacity-overflow panic exactly for Err(CapacityOverflow)', okv, '', b.get('span'))
-    ctx.floor(rule, k.n, 38, 'helper / accessor / iterator-glue clauses for Vec and RawVec')
+    # ---- RawVec::shrink_to_fit / dealloc_buffer / Drop
+    R_ = 'collections::raw_vec::RawVec'
+    CAPL, PTRL, AL_ = ld(SELF, R_ + '.cap'), ld(SELF, R_ + '.ptr'), ld(SELF, R_ + '.a')
+    b = method(db, 'raw_vec::RawVec', 'shrink_to_fit')
+    if b:
+        I, r = k.run(b)
+        ev = own(r)
+        pan = [e for e in r.events if len(e.stack) == 1 and e.kind in ('diverge', 'panic') and 'panic' in (e.callee or '')]
+        k.check('RawVec::shrink_to_fit', 'panics exactly when cap < amount', bool(pan) and any(('lt', CAPL, P2) in e.state.facts for e in pan), '', b.get('span'))
+        db_ = [e for e in ev if (e.callee or '').endswith('::dealloc_buffer')]
+        ni = [e for e in ev if (e.callee or '').endswith('RawVec::<\'a, T>::new_in')]
+        okz = len(db_) == 1 and any(f in (('eq', C(0), P2), ('eq', P2, C(0))) for f in db_[0].state.facts) and len(ni) == 1 and ni[0].args == [AL_] and r.events.index(db_[0]) < r.events.index(ni[0])
+        k.check('RawVec::shrink_to_fit', 'amount == 0: the buffer is released and self becomes an empty RawVec in the same arena', okz)
+        ra = [e for e in ev if (e.extra.get('trait_path') or '') == 'alloc::Alloc::realloc']
+        sts = own(r, 'store')
+        sz = sym('sizeof(T)')
+        okr = len(ra) == 1 and ra[0].args[1] == PTRL and ra[0].args[2] == ('layout', app('mul', sz, CAPL), sym('alignof(T)')) and ra[0].args[3] == app('mul', sz, P2) \
+            and any(f[0] == 'ne' and set(f[1:]) == {CAPL, P2} for f in ra[0].state.facts)
+        k.check('RawVec::shrink_to_fit', 'otherwise realloc(ptr, Layout(cap * size), amount * size) exactly when cap != amount', okr)
+        capst = [e for e in sts if e.lv == fld(SELF, R_ + '.cap')]
+        k.check('RawVec::shrink_to_fit', 'cap := amount', bool(capst) and all(e.val == P2 for e in capst))
+    b = method(db, 'raw_vec::RawVec', 'dealloc_buffer')
+    if b:
+        I, r = k.run(b)
+        de = [e for e in own(r) if (e.callee or '').endswith('Bump::<MIN_ALIGN>::dealloc') or (e.extra.get('trait_path') or '') == 'alloc::Alloc::dealloc']
+        sz = sym('sizeof(T)')
+        okv = len(de) == 1 and de[0].args[1] == PTRL and de[0].args[2] == ('layout', app('mul', sz, CAPL), sym('alignof(T)')) \
+            and any(f[0] == 'ne' and C(0) in f[1:] and sz in f[1:] for f in de[0].state.facts) and any(f[0] == 'ne' and C(0) in f[1:] and CAPL in f[1:] for f in de[0].state.facts)
+        k.check('RawVec::dealloc_buffer', 'dealloc(ptr, Layout(cap * size)) exactly when the element size and the capacity are non-zero', okv, '', b.get('span'))
+    b = method(db, 'raw_vec::RawVec', 'drop', 'Drop')
+    if b:
+        I, r = k.run(b)
+        de = [e for e in own(r) if (e.callee or '').endswith('::dealloc_buffer')]
+        k.check('RawVec::drop', 'releases the buffer (and nothing else)', len(de) == 1 and de[0].args == [SELF] and len(own(r)) == 1, '', b.get('span'))
+    ctx.floor(rule, k.n, 44, 'helper / accessor / iterator-glue clauses for Vec and RawVec')
 
 
 def check_string(ctx, config, rule):
